@@ -115,8 +115,8 @@ __CPROVER_loop_invariant(self->m_ivalues.pushed == 1 ==> (NV_IDENT(self->m_ivalu
 uint64_t nv_p;                 /* the followed sorted position */
 int64_t nv_feature;            /* ghost name of the callback's feature argument */
 /* the latest evaluation of a candidate: where the cut was, its score, its mid-point; and the candidate stored last */
-int64_t nv_evals, nv_eval_ver; double nv_eval_score, nv_eval_mid; int32_t nv_eval_side;
-int64_t nv_stores, nv_store_ver; double nv_store_score, nv_store_mid; int32_t nv_store_side;
+int64_t nv_evals, nv_eval_ver; double nv_eval_score, nv_eval_mid, nv_eval_thr; int32_t nv_eval_side;      /* thr: the threshold the candidate was scored with (hinge) */
+int64_t nv_stores, nv_store_ver; double nv_store_score, nv_store_mid, nv_store_thr; int32_t nv_store_side;
 int64_t nv_row0_sets, nv_row1_sets, nv_row0_ver, nv_row1_ver; int32_t nv_row0_kind, nv_row1_kind;
 double __CPROVER_uninterpreted_fitscore(int32_t, int64_t, int64_t, double, double, int32_t, double);
 
@@ -150,6 +150,8 @@ static struct nv_tuple2 nv_cache_clear(struct nv_fitcache* c)
   c->m_acc_sum.ver = (int64_t)c->m_ivalues.n; c->m_acc_sum.cnt = (nv_p < c->m_ivalues.n) ? 1 : 0;
   struct nv_tuple2 t; t._0 = nv_nondet_double(); t._1 = nv_nondet_double(); return t;
 }
+/* a threshold t is usable for the cut V iff `value < t` holds for the last left entry and fails for the first right one */
+#define NV_SEPARATES(c, V, t) ((c)->m_ivalues.p[(V) - 1].first < (t) && (t) <= (c)->m_ivalues.p[V].first)
 /* THE EVENT "a candidate is evaluated" (cache.score(..) / score_neg(..) / score_pos(..)): the accumulators define the cut
  * V = #entries in the left accumulator.  Obligations: the cut lies between two different consecutive sorted values, and
  * the left / right side hold exactly the entries before / after the cut */
@@ -166,7 +168,12 @@ static double nv_candidate(const struct nv_fitcache* c, int32_t side, double thr
     __CPROVER_assert((nv_p < (uint64_t)V) ? (c->m_ivalues.p[nv_p].first <= c->m_ivalues.p[V - 1].first) : (c->m_ivalues.p[nv_p].first >= c->m_ivalues.p[V].first),
                      "fit: entries left of the cut have values <= v1, entries right of it values >= v2");
   double mid = NV_FMUL(0.5, NV_FADD(c->m_ivalues.p[V - 1].first, c->m_ivalues.p[V].first));
-  if (has_threshold) __CPROVER_assert(NV_IDENT(threshold_used, mid), "fit: the candidate is scored with the mid-point 0.5 * (v1 + v2) of its cut as the threshold");
+  if (has_threshold)
+  {
+    __CPROVER_assert(NV_SEPARATES(c, V, threshold_used), "fit: the threshold a candidate is scored with separates the two sides of its cut under `value < threshold`: v1 < threshold <= v2");
+    __CPROVER_assert(NV_SEPARATES(c, V, mid) ==> NV_IDENT(threshold_used, mid), "fit: the candidate is scored with the mid-point 0.5 * (v1 + v2) of its cut as the threshold (whenever that mid-point separates)");
+  }
+  nv_eval_thr = has_threshold ? threshold_used : mid;
   nv_evals = (nv_evals < NV_MAXN) ? nv_evals + 1 : nv_evals;
   nv_eval_ver = V; nv_eval_mid = mid; nv_eval_side = side;
   nv_eval_score = __CPROVER_uninterpreted_fitscore(side, V, c->m_acc_sum.ver, mrss, mcnt, criterion, mid);
@@ -177,7 +184,7 @@ static struct nv_coef nv_coef_of(const struct nv_fitcache* c, int32_t kind) { st
 /* hinge: beta_neg(threshold) / beta_pos(threshold): as above, and the threshold used is the mid-point of the evaluated cut */
 static struct nv_coef nv_coef_of_t(const struct nv_fitcache* c, int32_t kind, double threshold)
 {
-  __CPROVER_assert(nv_evals > 0 && NV_IDENT(threshold, nv_eval_mid), "fit: the coefficients are computed for the mid-point threshold of the evaluated cut");
+  __CPROVER_assert(nv_evals > 0 && NV_IDENT(threshold, nv_eval_thr), "fit: the coefficients are computed for the threshold the candidate was scored with");
   return nv_coef_of(c, kind);
 }
 /* hinge: factor * cache.m_tables.array(0), the intercept row: obligations = it is derived from row 0 as just stored, with
@@ -186,7 +193,7 @@ static struct nv_coef nv_coef_of_t(const struct nv_fitcache* c, int32_t kind, do
 static struct nv_coef nv_coef_scaled(double factor, struct nv_grow row, const struct nv_fitcache* c)
 {
   __CPROVER_assert(row.tensor == c->m_tables.id && row.row == 0 && nv_row0_sets > 0 && nv_row0_ver == nv_eval_ver, "fit: the intercept row is derived from the slope row stored for the same candidate");
-  __CPROVER_assert(NV_IDENT(factor, NV_FNEG(nv_eval_mid)), "fit: the intercept row is -threshold * slope row for the mid-point threshold of the evaluated cut");
+  __CPROVER_assert(NV_IDENT(factor, NV_FNEG(nv_eval_thr)), "fit: the intercept row is -threshold * slope row for the threshold the candidate was scored with");
   struct nv_coef e; e.kind = NV_SIDE_DERIVED; e.ver = nv_row0_ver; return e;
 }
 /* cache.m_tables.array(r) = coefficients: THE EVENT "a candidate is stored" (recorded per row; the stored candidate is the
@@ -198,7 +205,7 @@ static void nv_row_store(struct nv_grow dst, struct nv_coef e, const struct nv_f
   if (dst.row == 0) { nv_row0_sets = (nv_row0_sets < 2 * NV_MAXN) ? nv_row0_sets + 1 : nv_row0_sets; nv_row0_ver = e.ver; nv_row0_kind = e.kind; }
   else { nv_row1_sets = (nv_row1_sets < 2 * NV_MAXN) ? nv_row1_sets + 1 : nv_row1_sets; nv_row1_ver = e.ver; nv_row1_kind = e.kind; }
   nv_stores = nv_row0_sets + nv_row1_sets;
-  nv_store_ver = nv_eval_ver; nv_store_score = nv_eval_score; nv_store_mid = nv_eval_mid; nv_store_side = nv_eval_side;
+  nv_store_ver = nv_eval_ver; nv_store_score = nv_eval_score; nv_store_mid = nv_eval_mid; nv_store_thr = nv_eval_thr; nv_store_side = nv_eval_side;
 }
 
 /* the cache's tables have 2 rows (cache_t's constructor: cat_dims(2, tdims)) */
@@ -211,16 +218,20 @@ __CPROVER_requires(__CPROVER_is_fresh(caches, sizeof(*caches)) && NV_FITCACHE_OK
 __CPROVER_requires((nv_p < caches->cur->m_ivalues.n) ? (nv_track == &caches->cur->m_ivalues.p[nv_p].second && 0 <= caches->cur->m_ivalues.p[nv_p].second \
    && caches->cur->m_ivalues.p[nv_p].second < gradients->rows) : nv_track == NULL) \
 __CPROVER_requires(nv_feature == feature && !nv_fitbad && nv_evals == 0 && nv_stores == 0 && nv_row0_sets == 0 && nv_row1_sets == 0)
-#define NV_SWEEP_GHOST nv_fitbad, nv_evals, nv_eval_ver, nv_eval_score, nv_eval_mid, nv_eval_side, nv_stores, nv_store_ver, nv_store_score, nv_store_mid, nv_store_side, \
+#define NV_SWEEP_GHOST nv_fitbad, nv_evals, nv_eval_ver, nv_eval_score, nv_eval_mid, nv_eval_side, nv_stores, nv_store_ver, nv_store_score, nv_store_mid, nv_store_thr, nv_store_side, nv_eval_thr, \
   nv_row0_sets, nv_row1_sets, nv_row0_ver, nv_row1_ver, nv_row0_kind, nv_row1_kind
 #define NV_SWEEP_ASSIGNS __CPROVER_assigns(caches->cur->m_acc_sum, caches->cur->m_acc_neg, caches->cur->m_feature, caches->cur->m_threshold, caches->cur->m_score, caches->cur->m_hinge, NV_SWEEP_GHOST)
 /* the cache after the sweep: untouched if nothing was stored, else one consistent candidate */
 #define NV_STORED_CONSISTENT(c) (0 <= nv_evals && 0 <= nv_row0_sets && nv_row0_sets <= 2 * NV_MAXN && nv_row0_sets == nv_row1_sets && 2 * nv_row0_sets == nv_stores \
   && (nv_stores > 0 ==> (nv_row0_ver == nv_store_ver && nv_row1_ver == nv_store_ver && 1 <= nv_store_ver && (uint64_t)nv_store_ver < (c)->m_ivalues.n \
-        && NV_IDENT((c)->m_score, nv_store_score) && NV_IDENT((c)->m_threshold, nv_store_mid) && (c)->m_feature == nv_feature)))
+        && NV_IDENT((c)->m_score, nv_store_score) && (c)->m_feature == nv_feature \
+        && (NV_SEPARATES(c, nv_store_ver, nv_store_mid) ==> NV_IDENT((c)->m_threshold, nv_store_mid)))))
+/* the stored threshold reproduces the partition the score was computed for: v1 < threshold <= v2 */
+#define NV_STORED_SEPARATES(c) (nv_stores > 0 ==> NV_SEPARATES(c, nv_store_ver, (c)->m_threshold))
 #define NV_STUMP_STORED(c) (nv_stores > 0 ==> (nv_row0_kind == NV_SIDE_NEG && nv_row1_kind == NV_SIDE_POS))
 #define NV_CONTRACT_stump_fit_sweep NV_SWEEP_REQ NV_SWEEP_ASSIGNS \
 __CPROVER_ensures(!nv_fitbad && NV_STORED_CONSISTENT(caches->cur) && NV_STUMP_STORED(caches->cur)) \
+__CPROVER_ensures(NV_STORED_SEPARATES(caches->cur)) \
 __CPROVER_ensures(nv_stores == 0 ==> (NV_IDENT(caches->cur->m_score, __CPROVER_old(caches->cur->m_score)) && NV_IDENT(caches->cur->m_threshold, __CPROVER_old(caches->cur->m_threshold)) \
    && caches->cur->m_feature == __CPROVER_old(caches->cur->m_feature))) \
 /* the threshold stored (NV_STORED_CONSISTENT: bit-identical with nv_store_mid, which nv_candidate computed as 0.5 * (v1 + v2) \
@@ -231,7 +242,8 @@ __CPROVER_loop_invariant(sv == (c)->m_ivalues.n && sv <= NV_MAXN && ((sv == 0) ?
 __CPROVER_loop_invariant((c)->m_acc_neg.ver == (int64_t)iv && (c)->m_acc_neg.cnt == ((nv_p < iv) ? 1 : 0)) \
 __CPROVER_loop_invariant((c)->m_acc_sum.ver == (int64_t)(c)->m_ivalues.n && (c)->m_acc_sum.cnt == ((nv_p < (c)->m_ivalues.n) ? 1 : 0)) \
 __CPROVER_loop_invariant(NV_STORED_CONSISTENT(c) && nv_row0_sets <= NV_STORES_PER_CUT * (int64_t)iv) \
-__CPROVER_loop_invariant(nv_stores > 0 ==> (c)->m_ivalues.p[nv_store_ver - 1].first < (c)->m_ivalues.p[nv_store_ver].first)
+__CPROVER_loop_invariant(nv_stores > 0 ==> (c)->m_ivalues.p[nv_store_ver - 1].first < (c)->m_ivalues.p[nv_store_ver].first) \
+__CPROVER_loop_invariant(NV_STORED_SEPARATES(c))
 #define NV_STORES_PER_CUT 2      /* the hinge may store twice per cut (left and right direction), the stump once */
 #define NV_LOOP_stump_fit_sweep_1 \
 __CPROVER_assigns(iv, cache->m_acc_neg, cache->m_feature, cache->m_threshold, cache->m_score, NV_SWEEP_GHOST) \
@@ -243,10 +255,11 @@ __CPROVER_decreases(sv - iv)
 /* ---- hinge: two directions per cut; the direction stored is the one whose score was stored */
 #define NVE_hinge_type_left 0      /* pinned by static_asserts in drivers/inst_wlearner.cpp */
 #define NVE_hinge_type_right 1
-#define NV_HINGE_STORED(c) (nv_stores > 0 ==> (nv_row1_kind == NV_SIDE_DERIVED && nv_row0_kind == nv_store_side \
+#define NV_HINGE_STORED(c) (nv_stores > 0 ==> (nv_row1_kind == NV_SIDE_DERIVED && nv_row0_kind == nv_store_side && NV_IDENT((c)->m_threshold, nv_store_thr) \
   && (((c)->m_hinge == NVE_hinge_type_left) ? (nv_store_side == NV_SIDE_NEG) : ((c)->m_hinge == NVE_hinge_type_right && nv_store_side == NV_SIDE_POS))))
 #define NV_CONTRACT_hinge_fit_sweep NV_SWEEP_REQ NV_SWEEP_ASSIGNS \
 __CPROVER_ensures(!nv_fitbad && NV_STORED_CONSISTENT(caches->cur) && NV_HINGE_STORED(caches->cur)) \
+__CPROVER_ensures(NV_STORED_SEPARATES(caches->cur)) \
 __CPROVER_ensures(nv_stores == 0 ==> (NV_IDENT(caches->cur->m_score, __CPROVER_old(caches->cur->m_score)) && NV_IDENT(caches->cur->m_threshold, __CPROVER_old(caches->cur->m_threshold)) \
    && caches->cur->m_feature == __CPROVER_old(caches->cur->m_feature) && caches->cur->m_hinge == __CPROVER_old(caches->cur->m_hinge))) \
 __CPROVER_ensures(nv_stores > 0 ==> caches->cur->m_ivalues.p[nv_store_ver - 1].first < caches->cur->m_ivalues.p[nv_store_ver].first)
